@@ -558,16 +558,21 @@ def f24(rng, lo, hi, sign=True):
     return -fr if sign and rng.random() < 0.5 else fr
 
 
-def _build_cfg(ctx, pid, real):
-    return ctx.cc("glue_cfg_%s_r%d%s" % (pid, real, TREE), [G / ("cfg_%s.c" % pid)], repo_srcs=SRCS[pid], mode="asan", real=real)
+def _build_cfg(ctx, pid, real, noalign=False):
+    """noalign: the same ASan+UBSan build without UBSan's alignment check (for the long double runs with an odd nfuzz, where the
+    documented layout of the fuzzy scratch block puts the values at 8 mod 16 - an observation outside the property)"""
+    return ctx.cc("glue_cfg_%s_r%d%s%s" % (pid, real, "na" if noalign else "", TREE), [G / ("cfg_%s.c" % pid)], repo_srcs=SRCS[pid],
+                  mode="asan", real=real, extra=["-fno-sanitize=alignment"] if noalign else [])
 
 
-def run_cases(ctx, pid, cases, reals=(4, 8, 16)):
-    """Build the driver for every configuration, run the cases, compare.  Returns {real: number of cases run}."""
-    bins = {}
+def run_cases(ctx, pid, cases, reals=(4, 8, 16), bins=None):
+    """Build the driver for every configuration (unless the binaries are given), run the cases, compare.
+    Returns ({real: number of cases run}, {real: binary})."""
+    bins = dict(bins or {})
     try:
+        todo = [r for r in reals if r not in bins]
         with ThreadPoolExecutor(max_workers=3) as ex:
-            for real, b in zip(reals, ex.map(lambda r: _build_cfg(ctx, pid, r), reals)):
+            for real, b in zip(todo, ex.map(lambda r: _build_cfg(ctx, pid, r), todo)):
                 bins[real] = b
     except vlib.CheckError as e:
         ctx.tie_broken("glue: the configuration-sweep driver harness/glue/cfg_%s.c does not build in one of the configurations "
@@ -730,6 +735,24 @@ def config_sweep(ctx, pid):
     scale = 1 if ctx.quick else 10
     cases, note = GENERATORS[pid](rng, scale)
     ran, bins = run_cases(ctx, pid, cases)
+    # fuzzy-controller histories in which EVERY one of the nfuzz sets of e and of ec is active, nfuzz = 1..5 (odd included): the last cell
+    # of the nfuzz x nfuzz joint-membership matrix is written, the scratch block has exactly A_PID_FUZZY_BFUZZ(nfuzz) bytes with guard
+    # bytes directly behind it.  Float and double builds as above; the long double build is compiled without UBSan's alignment check
+    # (ASan and the rest of UBSan stay), because the documented layout misaligns the values for an odd nfuzz there
+    n_full = 0
+    if bins and pid in FULL_FUZZY:
+        full = gen_full_fuzzy_cases(random.Random(ctx.subseed("glue_cfg_full_" + pid)), FULL_FUZZY[pid] * scale)
+        try:
+            b16 = _build_cfg(ctx, pid, 16, noalign=True)
+            ran2, _ = run_cases(ctx, pid, full, bins={4: bins[4], 8: bins[8], 16: b16})
+            n_full = len(full)
+            for r, k in ran2.items():
+                ran[r] = ran.get(r, 0) + k
+            cases = cases + full
+            ctx.cov["glue_cfg_all_sets_active_cases"] = {"cases": len(full), "nfuzz": sorted(set(int(c.line.split()[2]) for c in full)),
+                                                         "long double build": "-fsanitize=address,undefined -fno-sanitize=alignment"}
+        except vlib.CheckError as e:
+            ctx.tie_broken("glue: the long double driver without the alignment check does not build: %s" % " ".join(str(e).split())[-500:])
     # fixed probes of things seen on the unchanged tree that lie OUTSIDE the property's statement: never a violation, never a known
     # finding - an observation in the evidence and one log line
     for key, fn in (PROBES.get(pid, []) if bins else []):
@@ -754,7 +777,12 @@ def config_sweep(ctx, pid):
                                 "bytes between and around them, histories pre-filled with the poison value 777; precision cases (inputs with full 24-bit "
                                 "mantissas, identical in every build) must agree with the exact rational value of the documented equations within "
                                 "2 x depth x machine epsilon of the configuration x size of the terms, which a narrower local, constant or cast "
-                                "in the double / long double build exceeds; " % BITS + note)
+                                "in the double / long double build exceeds; " % BITS + note +
+                                ("; %d fuzzy-controller histories in which every one of the nfuzz = 1..5 sets of e and of ec is active (wide "
+                                 "triangles with chosen dyadic degrees), so that the last cell of the nfuzz x nfuzz matrix is written into a block of "
+                                 "exactly A_PID_FUZZY_BFUZZ(nfuzz) bytes with guard bytes directly behind it - odd nfuzz included; for these the long "
+                                 "double build is compiled with -fno-sanitize=alignment (ASan and the rest of UBSan kept), because the documented "
+                                 "layout misaligns the values for an odd nfuzz there" % n_full if n_full else ""))
     ctx.count(evaluations=sum(ran.values()))
     ctx.assumptions.append("glue (configurations): differential test on generated exact cases and toleranced comparisons, no proof; the "
                            "float and long double builds are not modelled in Rocq")
@@ -1947,6 +1975,94 @@ def gen_eps_cases(rng, n):
                           {"degree of the only active e-set": "2^-%d" % k, "operator": opr, "base kp ki kd": [dec(v) for v in base],
                            "consequents of rule (0,0)": [dec(tabs[j][0]) for j in range(3)], "step": (mode, dec(e), "0"),
                            "expected": "gains = base + consequent where 2^-%d > A_REAL_EPSILON of the configuration, else base" % k}))
+    return cases
+
+
+FULL_FUZZY = {"C12": 30, "C13": 45}        # property -> number of all-sets-active histories in the quick tier
+DEGREES = {1: [[Fraction(1, 2)], [Fraction(1, 4)]],
+           2: [[Fraction(1, 2), Fraction(1, 2)], [Fraction(3, 4), Fraction(1, 4)]],
+           3: [[Fraction(1, 2), Fraction(1, 4), Fraction(1, 4)]],
+           4: [[Fraction(1, 4)] * 4, [Fraction(1, 2), Fraction(1, 4), Fraction(1, 8), Fraction(1, 8)]],
+           5: [[Fraction(1, 4), Fraction(1, 4), Fraction(1, 4), Fraction(1, 8), Fraction(1, 8)], [Fraction(1, 2)] + [Fraction(1, 8)] * 4]}
+
+
+def full_table(rng, n, x0):
+    """n wide triangles (flank width 32) ALL of which contain x0, with chosen dyadic degrees there that add up to one
+    (n = 1: one half or one quarter): every set is active at x0"""
+    ds = list(rng.choice(DEGREES[n]))
+    rng.shuffle(ds)
+    sets = []
+    for d in ds:
+        if rng.random() < 0.5:      # x0 on the rising flank
+            a = x0 - 32 * d
+            sets.append((8, [a, a + 32, a + 64]))
+        else:                       # x0 on the falling flank
+            c = x0 + 32 * d
+            sets.append((8, [c - 64, c - 32, c]))
+    flat = []
+    for t, ps in sets:
+        flat += [Fraction(t)] + ps
+    return flat, sets
+
+
+def gen_full_fuzzy_cases(rng, count):
+    """histories of steps that all see the same error e = x0 and, after a_pid_fuzzy_zero, the same error change ec = x0"""
+    cases = []
+    tries = 0
+    per_n = {}
+    while len(cases) < count and tries < count * 80:
+        tries += 1
+        n = rng.choice([1, 3, 5, 3, 5, 2, 4])
+        if per_n.get(n, 0) > count // 3:
+            continue
+        x0 = Fraction(rng.choice([-8, -6, -5, -3, -2, -1, 1, 2, 3, 5, 6, 8]), 4)
+        me_flat, me = full_table(rng, n, x0)
+        mec_flat, mec = full_table(rng, n, x0)
+        opr = rng.choice([2, 2, 2, 1, 4, 5, 6, 3])
+        mask = rng.choice([7, 7, 7, 1, 2, 4, 0])
+        nn = n * n
+        vals = rng.sample(range(-3 * nn - 3, 3 * nn + 4), 3 * nn)
+        tabs = [[Fraction(v, 2) for v in vals[k * nn:(k + 1) * nn]] for k in range(3)]
+        base = [Fraction(v, 2) for v in rng.sample(range(1, 12), 3)]
+        lim = [Fraction(rng.randint(40, 60)), -Fraction(rng.randint(40, 60)), Fraction(rng.randint(200, 300)), -Fraction(rng.randint(200, 300))]
+        f = {"nrule": n, "nfuzz": n, "opr": opr, "me": me, "mec": mec, "kp": X(base[0]), "ki": X(base[1]), "kd": X(base[2]),
+             "mkp": tabs[0] if mask & 1 else None, "mki": tabs[1] if mask & 2 else None, "mkd": tabs[2] if mask & 4 else None}
+        par = {"kp": f["kp"], "ki": f["ki"], "kd": f["kd"], "summax": X(lim[0]), "summin": X(lim[1]), "outmax": X(lim[2]), "outmin": X(lim[3])}
+        st = {k: X(0) for k in ("sum", "out", "var", "fdb", "err")}
+        exp = E("a_pid_fuzzy_bfuzz", [1])
+        steps = []
+        try:
+            for k in range(rng.choice([1, 2, 3])):
+                if k:
+                    r = pid_step(st, par, 3, 0, 0)
+                    steps.append((3, Fraction(0), Fraction(0)))
+                    exp.extend(E("a_pid_fuzzy_zero", [r, par["kp"], par["ki"], par["kd"], st["sum"], st["out"], st["var"], st["fdb"], st["err"]]))
+                mode = rng.choice([0, 1, 1, 2, 2])
+                fdb = dy(rng, -3, 3, 2)
+                set_ = fdb + x0
+                e = X(set_) - X(fdb)
+                g = fuzzy_gains(f, e, e - st["err"])
+                if len([1 for t, ps in me if mf_exact(t, e, ps) > 0]) != n:
+                    raise AssertionError("not every set is active")
+                par["kp"], par["ki"], par["kd"] = g
+                r = pid_step(st, par, mode, set_, fdb)
+                steps.append((mode, set_, fdb))
+                exp.extend(E("a_pid_fuzzy_" + ("run", "pos", "inc")[mode], [r, par["kp"], par["ki"], par["kd"], st["sum"], st["out"], st["var"], st["fdb"], st["err"]]))
+        except Inexact:
+            continue
+        toks = ["fuzzy", str(n), str(n), str(opr), str(mask), str(len(me_flat)), str(len(mec_flat))]
+        toks += [hexf(v) for v in base + lim + me_flat + mec_flat + tabs[0] + tabs[1] + tabs[2]]
+        for mode, a, b in steps:
+            toks += [str(mode), hexf(a), hexf(b)]
+        exp.extend(E("a_pid_fuzzy_set_kpid", base))
+        per_n[n] = per_n.get(n, 0) + 1
+        cases.append(Case(" ".join(toks), "a_pid_fuzzy_pos", exp,
+                          {"nrule = nfuzz (every set of e and of ec is active: the whole nfuzz x nfuzz matrix is written)": n, "operator": opr,
+                           "tables present (bit 0 mkp, 1 mki, 2 mkd)": mask, "scratch block": "exactly A_PID_FUZZY_BFUZZ(%d) bytes, 16-byte aligned, guard bytes directly behind" % n,
+                           "error and error change at every stepping call": dec(x0), "base kp ki kd": [dec(v) for v in base],
+                           "me": [dec(v) for v in me_flat], "mec": [dec(v) for v in mec_flat], "mkp": [dec(v) for v in tabs[0]],
+                           "mki": [dec(v) for v in tabs[1]], "mkd": [dec(v) for v in tabs[2]],
+                           "steps (mode 0 run 1 pos 2 inc 3 zero, set, fdb)": [(m, dec(a), dec(b)) for m, a, b in steps]}))
     return cases
 
 
